@@ -242,6 +242,19 @@ def cexn(name):
 
 
 # ------------------------------------------------------------ kernels regenerated from the source (tools/py2v.py)
+import contextlib
+@contextlib.contextmanager
+def debug_logging():
+    """the host application has switched on debug logging: root logger at DEBUG with a handler (into a buffer), logging not disabled"""
+    import logging, io
+    root = logging.getLogger(); old_level = root.level; old_disable = logging.root.manager.disable
+    hd = logging.StreamHandler(io.StringIO()); root.addHandler(hd); root.setLevel(logging.DEBUG); logging.disable(logging.NOTSET)
+    try:
+        yield
+    finally:
+        logging.disable(old_disable); root.setLevel(old_level); root.removeHandler(hd)
+
+
 def ws_table_obligation(work):
     """PyStr.is_ws (the model of str.isspace, hence of str.strip) accepts exactly the code points this interpreter's str.isspace does:
     the table is recomputed inside Coq over every code point and compared with the interpreter's."""
